@@ -225,17 +225,25 @@ impl Interp {
         let mut ctrl = init.pop().unwrap_or(Value::Nil);
         let state = init.pop().unwrap_or(Value::Nil);
         let f = init.pop().unwrap_or(Value::Nil);
+        if !matches!(f, Value::Func(_) | Value::Native(_)) && self.metamethod(&f, Mm::Call).is_nil() {
+            let msg = format!("attempt to call a {} value", f.type_name());
+            return Err(self.rt_error(ErrClass::Call, line, &msg));
+        }
         loop {
             self.step()?;
             self.cur_line = line;
             let mut rs = match &f {
                 Value::Func(c) => self.call_lua(p, c.clone(), vec![state.clone(), ctrl])?,
-                _ => {
-                    self.for_iter = matches!(f, Value::Native(_));
-                    let r = self.call_value(p, &f, vec![state.clone(), ctrl]);
+                Value::Native(n) => {
+                    self.for_iter = true;
+                    let saved = self.from_native;
+                    self.from_native = false;
+                    let r = self.call_native(p, n, vec![state.clone(), ctrl]);
+                    self.from_native = saved;
                     self.for_iter = false;
                     r?
                 }
+                _ => self.call_value(p, &f, vec![state.clone(), ctrl])?,
             };
             rs.resize(nvars as usize, Value::Nil);
             if rs[0].is_nil() {
